@@ -607,9 +607,8 @@ def _build_end_to_end(ctx, rid, reg):
     ext = listnp.externals()
     ext.update({
         "subscribe": lambda a, k: PyFunc(lambda a2, k2: None, "subscriber"), "get_backend": (lambda tl_: (lambda a, k: (tl_, None)))(_tensorlib_obj()),
-        "_finalize_parameters_specs": lambda a, k: (rec.__setitem__("finalize_args", a) or {"REQ": True}),
         "required_parset": lambda a, k: {"required": True},
-        "_create_parameters_from_spec": lambda a, k: (Obj("paramobjs"), [], []),
+        **param_stubs(repo, rec),
     })
     w = World(ext, region=AutoRegion(), module_env={"pyhf": Obj("pyhf", {"default_backend": Obj("default_backend")}), "events": Obj("events"), "exceptions": Obj("exceptions")})
     w.add_class(nbc)
@@ -620,7 +619,7 @@ def _build_end_to_end(ctx, rid, reg):
     # ONE settings object given to both models of this process (a caller describing two models with the same non-default codes)
     settings = {"normsys": {"interpcode": "code1"}, "histosys": {"interpcode": "code0"}}
     settings_before = {k_: dict(v_) for k_, v_ in settings.items()}
-    cfg = Obj("config", {"channels": list(order_c), "samples": list(order_s), "channel_nbins": {k_: c(v_) for k_, v_ in nbins.items()}, "modifiers": list(mods), "modifier_settings": settings})
+    cfg = Obj("config", {"channels": list(order_c), "samples": list(order_s), "channel_nbins": {k_: c(v_) for k_, v_ in nbins.items()}, "modifiers": list(mods), "modifier_settings": settings, **config_recorders(rec)})
     site = f"{PDF}::_nominal_and_modifiers_from_spec [interpreted]"
     # HISTORY: another model is built first in the same process -- same channel, sample and modifier NAMES, other bin counts,
     # other data, other placement of the modifiers; nothing of it may show in the model under test
@@ -720,12 +719,24 @@ def _build_end_to_end(ctx, rid, reg):
         ctx.violated(rid, f, "the caller's modifier_settings object", "building a model rewrites the settings object the caller passed (an entry removed or added): the next model described with the same object is built with other interpolation codes / another batch size than its caller asked for", expected=str(settings_before), found=str(settings))
     else:
         ctx.holds(rid, f"{site} modifier settings", "the caller's settings object is unchanged after two builds; each applier got this build's interpolation code and batch size")
-    fa = rec.get("finalize_args")
+    fr = rec.get("finalize_reqs")
     names = sorted({n for n, _ in mods})
-    if fa and len(fa) == 2 and isinstance(fa[1], dict) and sorted(fa[1]) == names:
+    if isinstance(fr, dict) and sorted(fr) == names:
         ctx.holds(rid, f"{site} parameter requirements", f"one requirement list per parameter name {names}")
     else:
-        ctx.violated(rid, f, "parameter requirements", "the parameter requirements handed on are not keyed by exactly the declared modifier names", expected=str(names), found=str(sorted(fa[1]) if fa and len(fa) == 2 and isinstance(fa[1], dict) else fa))
+        ctx.violated(rid, f, "parameter requirements", "the parameter requirements handed on are not keyed by exactly the declared modifier names", expected=str(names), found=str(sorted(fr) if isinstance(fr, dict) else rec.get("finalize_args")))
+    marks = rec.get("param_marks") or {}
+    sp, sa = rec.get("set_parameters"), rec.get("set_auxinfo")
+    if sp is not None or sa is not None:
+        got_p = (sp[0] + list(sp[1].values()))[:1] if sp else []
+        bound = {}
+        if sa:
+            for nm_, v_ in list(zip(("auxdata", "auxdata_order"), sa[0])) + list(sa[1].items()):
+                bound[nm_] = v_
+        if got_p and got_p[0] is marks.get("sets") and bound.get("auxdata") is marks.get("aux") and bound.get("auxdata_order") is marks.get("order"):
+            ctx.holds(rid, f"{site} parameter sets and auxiliary data", "what _create_parameters_from_spec returns reaches config.set_parameters / set_auxinfo(auxdata, auxdata_order) in its own role")
+        else:
+            ctx.violated(rid, f, "config.set_auxinfo(...)", "the parameter sets, the auxiliary data and their order returned by _create_parameters_from_spec do not reach the configuration in their own roles (unpacked in another order than they are returned): the constraint terms read another parameter's auxiliary data", expected="set_parameters(<sets>); set_auxinfo(<auxiliary data>, <order>)", found=f"set_parameters{[getattr(x, 'name', x) for x in got_p]}, set_auxinfo({ {k_: [str(y) for y in v_] if isinstance(v_, list) else v_ for k_, v_ in bound.items()} })")
 
 
 def _apply_interpolating(ctx, rid, reg):
@@ -960,6 +971,45 @@ def _config_methods(w, cfg, pm):
     w.ext = None
 
 
+def param_stubs(repo, rec):
+    """Recorders for the two private helpers _nominal_and_modifiers_from_spec composes, bound the way the helpers are DEFINED
+    today: the requirement table is whichever argument is the name-keyed dict, and the stand-in for
+    _create_parameters_from_spec returns (parameter sets, auxiliary data, their order) in the order the real function returns
+    them (found by interpreting it once on three sets, a and c constrained) -- a signature changed at the definition and at
+    every call site alike is the same program."""
+    order = ["sets", "aux", "order"]
+    try:
+        cps = repo.func(PDF, "_create_parameters_from_spec")
+        ctor = lambda nm, con: PyFunc(lambda a, k: Obj(f"ps_{nm}", {"constrained": con, "auxdata": [Poly.atom(f"AUX_{nm}")]}), f"ctor_{nm}")
+        pm = Obj("pyhf.parameters", {"T_a": ctor("a", True), "T_b": ctor("b", False), "T_c": ctor("c", True)})
+        reqs = {n: {"paramset_type": f"T_{n}"} for n in "abc"}
+        prm = [a_.arg for a_ in cps.node.args.args]
+        out = Interp({prm[0] if prm else "_reqs": reqs, "pyhf": Obj("pyhf", {"parameters": pm})}, {}, {}).run(A.strip_docstring(cps.node.body))
+        roles = []
+        for x in out:
+            roles.append("sets" if isinstance(x, dict) else ("order" if isinstance(x, (list, tuple)) and all(isinstance(y, str) for y in x) and x else "aux"))
+        if sorted(roles) == sorted(order):
+            order = roles
+    except Exception:  # the composition check below then uses today's order; the function itself is judged by C02.R1
+        pass
+    marks = {"sets": Obj("paramobjs"), "aux": [Poly.atom("AUXDATA_MARK")], "order": ["ORDER_MARK"]}
+    rec["param_marks"] = marks
+
+    def finalize(a, k):
+        vals = list(a) + list(k.values())
+        rec["finalize_args"] = vals
+        rec["finalize_reqs"] = next((x for x in vals if isinstance(x, dict)), None)
+        return {"REQ": True}
+
+    return {"_finalize_parameters_specs": finalize, "_create_parameters_from_spec": lambda a, k: tuple(marks[r_] for r_ in order)}
+
+
+def config_recorders(rec):
+    """set_parameters / set_auxinfo of the configuration stand-in: what the pipeline stores there"""
+    return {"set_parameters": PyFunc(lambda a, k: rec.__setitem__("set_parameters", (list(a), dict(k))), "set_parameters"),
+            "set_auxinfo": PyFunc(lambda a, k: rec.__setitem__("set_auxinfo", (list(a), dict(k))), "set_auxinfo")}
+
+
 def pipeline_world(repo, reg, rec):
     """World in which _nominal_and_modifiers_from_spec runs with the real nominal builder and the real modifier
     builders; appliers, parameter finalisation and paramset creation are recorders."""
@@ -967,9 +1017,8 @@ def pipeline_world(repo, reg, rec):
     ext = listnp.externals()
     ext.update({
         "subscribe": lambda a, k: PyFunc(lambda a2, k2: None, "subscriber"), "get_backend": (lambda tl_: (lambda a, k: (tl_, None)))(_tensorlib_obj()),
-        "_finalize_parameters_specs": lambda a, k: (rec.__setitem__("finalize_args", a) or {"REQ": True}),
         "required_parset": lambda a, k: {"required": True},
-        "_create_parameters_from_spec": lambda a, k: (Obj("paramobjs"), [], []),
+        **param_stubs(repo, rec),
     })
     w = World(ext, region=AutoRegion(), module_env={"pyhf": Obj("pyhf", {"default_backend": Obj("default_backend")}), "events": Obj("events"), "exceptions": Obj("exceptions")})
     w.add_class(nbc)
